@@ -170,6 +170,11 @@ public:
         fn tmp = apply(*x.get_coef());
         fn tmp1, tmp2;
         for (const auto &p : x.get_dict()) {
+            if (eq(*(p.first), *E)) {
+                tmp2 = apply(*(p.second));
+                tmp = [=](const T *x) { return tmp(x) * std::exp(tmp2(x)); };
+                continue;
+            }
             tmp1 = apply(*(p.first));
             tmp2 = apply(*(p.second));
             tmp = [=](const T *x) {
